@@ -273,11 +273,16 @@ func Alphabet(md protoreflect.MessageDescriptor, depth int, o Opt) []*Slot {
 		}
 		switch {
 		case fd.IsMap():
-			keys := MapKeys(fd.MapKey(), o)
+			all := MapKeys(fd.MapKey(), o)
+			keys := all
 			if o.Thin {
 				keys = keys[:1]
 			} else if len(keys) > 2 {
 				keys = keys[:2]
+			}
+			if o.InvalidUTF8 && fd.MapKey().Kind() == protoreflect.StringKind {
+				// the keys this option exists for must survive the trimming
+				keys = append(append([]protoreflect.MapKey{}, keys...), all[len(all)-2:]...)
 			}
 			vd := fd.MapValue()
 			for _, k := range keys {
